@@ -430,3 +430,316 @@ Section TopFrame.
     split; congruence.
   Qed.
 End TopFrame.
+
+(** * Part 3: removing the cause *)
+
+(** A successful evaluation stays successful, with the same value, when the dependencies
+    it reads stay successful with the same values and no further raise switch is on. *)
+Section Transfer.
+  Variable sy1 sy2 : sys.
+  Variable pp : popu.
+  Variable rec1 rec2 : unit -> nat -> period -> unit * res val.
+  Hypothesis Hvars : vars sy2 = vars sy1.
+  Hypothesis Hparams : params sy2 = params sy1.
+  Hypothesis Hsw : forall k, existsb (Nat.eqb k) (switches sy2) = true ->
+                             existsb (Nat.eqb k) (switches sy1) = true.
+  Hypothesis Hrec : forall w q a, snd (rec1 tt w q) = Ok a -> snd (rec2 tt w q) = Ok a.
+
+  Lemma sum_calc_ok : forall subs w acc a,
+    snd (sum_calc rec1 tt w subs acc) = Ok a -> snd (sum_calc rec2 tt w subs acc) = Ok a.
+  Proof.
+    induction subs as [|q r IH]; intros w acc a H; cbn [sum_calc] in *; auto.
+    destruct (rec1 tt w q) as [[] r1] eqn:E1. destruct r1 as [b|]; [|discriminate].
+    pose proof (Hrec w q b) as H1. rewrite E1 in H1. specialize (H1 eq_refl).
+    destruct (rec2 tt w q) as [[] r2]. cbn [snd] in H1. subst r2. now apply IH.
+  Qed.
+
+  Lemma calc_add_ok : forall w x q a,
+    snd (calc_add rec1 tt w x q) = Ok a -> snd (calc_add rec2 tt w x q) = Ok a.
+  Proof.
+    intros w x q a. unfold calc_add.
+    destruct (_ <? _)%Z; [discriminate|].
+    destruct (unit_eqb _ _); [discriminate|].
+    destruct (negb _); [discriminate|].
+    destruct (subperiods _ _); [|discriminate].
+    apply sum_calc_ok.
+  Qed.
+
+  Lemma calc_divide_ok : forall w x q ad,
+    snd (calc_divide rec1 tt w x q) = Ok ad -> snd (calc_divide rec2 tt w x q) = Ok ad.
+  Proof.
+    intros w x q ad. unfold calc_divide.
+    destruct (_ || _); [discriminate|].
+    destruct (negb (dated_unit (v_unit x))); [discriminate|].
+    destruct (_ || _); [discriminate|].
+    destruct (divide_period _ _) as [cp|]; [|discriminate].
+    destruct (divide_denominator _ _); [|discriminate].
+    destruct (rec1 tt w cp) as [[] r1] eqn:E1. destruct r1 as [b|]; [|discriminate].
+    pose proof (Hrec w cp b) as H1. rewrite E1 in H1. specialize (H1 eq_refl).
+    destruct (rec2 tt w cp) as [[] r2]. cbn [snd] in H1. subst r2. auto.
+  Qed.
+
+  Lemma call_ok : forall c w q o a,
+    snd (call rec1 sy1 c tt w q o) = Ok a -> snd (call rec2 sy2 c tt w q o) = Ok a.
+  Proof.
+    intros c w q o a. unfold call. rewrite Hvars.
+    destruct (nth_error (vars sy1) w) as [x|]; [|discriminate].
+    destruct (negb _); [discriminate|].
+    destruct o; try discriminate.
+    - apply Hrec.
+    - apply calc_add_ok.
+    - destruct (calc_divide rec1 tt w x q) as [[] r1] eqn:E1. destruct r1 as [[b d]|]; [|discriminate].
+      pose proof (calc_divide_ok w x q (b, d)) as H1. rewrite E1 in H1. specialize (H1 eq_refl).
+      destruct (calc_divide rec2 tt w x q) as [[] r2]. cbn [snd] in H1. subst r2. auto.
+  Qed.
+
+  Lemma eval_ok : forall e c p a,
+    snd (eval rec1 sy1 pp c tt p e) = Ok a -> snd (eval rec2 sy2 pp c tt p e) = Ok a.
+  Proof.
+    induction e as [z|w pt o|op a IHa b IHb|a IHa|cn IHc a IHa b IHb|k|g role a IHa|role|role a IHa|f|k];
+      intros c p res H; cbn [eval] in *; auto.
+    - destruct (apply_ptrans pt p); [|discriminate]. now apply call_ok.
+    - destruct (eval rec1 sy1 pp c tt p a) as [[] r1] eqn:E1. destruct r1 as [x|]; [|discriminate].
+      pose proof (IHa c p x) as H1. rewrite E1 in H1. specialize (H1 eq_refl).
+      destruct (eval rec2 sy2 pp c tt p a) as [[] r1']. cbn [snd] in H1. subst r1'.
+      destruct (eval rec1 sy1 pp c tt p b) as [[] r2] eqn:E2. destruct r2 as [y|]; [|discriminate].
+      pose proof (IHb c p y) as H2. rewrite E2 in H2. specialize (H2 eq_refl).
+      destruct (eval rec2 sy2 pp c tt p b) as [[] r2']. cbn [snd] in H2. subst r2'. exact H.
+    - destruct (eval rec1 sy1 pp c tt p a) as [[] r1] eqn:E1. destruct r1 as [x|]; [|discriminate].
+      pose proof (IHa c p x) as H1. rewrite E1 in H1. specialize (H1 eq_refl).
+      destruct (eval rec2 sy2 pp c tt p a) as [[] r1']. cbn [snd] in H1. subst r1'. exact H.
+    - destruct (eval rec1 sy1 pp c tt p cn) as [[] r1] eqn:E1. destruct r1 as [x|]; [|discriminate].
+      pose proof (IHc c p x) as H1. rewrite E1 in H1. specialize (H1 eq_refl).
+      destruct (eval rec2 sy2 pp c tt p cn) as [[] r1']. cbn [snd] in H1. subst r1'.
+      destruct (eval rec1 sy1 pp c tt p a) as [[] r2] eqn:E2. destruct r2 as [y|]; [|discriminate].
+      pose proof (IHa c p y) as H2. rewrite E2 in H2. specialize (H2 eq_refl).
+      destruct (eval rec2 sy2 pp c tt p a) as [[] r2']. cbn [snd] in H2. subst r2'.
+      destruct (eval rec1 sy1 pp c tt p b) as [[] r3] eqn:E3. destruct r3 as [z|]; [|discriminate].
+      pose proof (IHb c p z) as H3. rewrite E3 in H3. specialize (H3 eq_refl).
+      destruct (eval rec2 sy2 pp c tt p b) as [[] r3']. cbn [snd] in H3. subst r3'. exact H.
+    - rewrite Hparams. exact H.
+    - destruct (eval rec1 sy1 pp EPerson tt p a) as [[] r1] eqn:E1. destruct r1 as [x|]; [|discriminate].
+      pose proof (IHa EPerson p x) as H1. rewrite E1 in H1. specialize (H1 eq_refl).
+      destruct (eval rec2 sy2 pp EPerson tt p a) as [[] r1']. cbn [snd] in H1. subst r1'. exact H.
+    - destruct (eval rec1 sy1 pp EGroup tt p a) as [[] r1] eqn:E1. destruct r1 as [x|]; [|discriminate].
+      pose proof (IHa EGroup p x) as H1. rewrite E1 in H1. specialize (H1 eq_refl).
+      destruct (eval rec2 sy2 pp EGroup tt p a) as [[] r1']. cbn [snd] in H1. subst r1'. exact H.
+    - destruct (existsb (Nat.eqb k) (switches sy1)) eqn:E1; [discriminate|].
+      destruct (existsb (Nat.eqb k) (switches sy2)) eqn:E2; [|exact H].
+      apply Hsw in E2. congruence.
+  Qed.
+End Transfer.
+
+(** The meaning of a rule system: what succeeds with some raise switches on succeeds, with
+    the same value, with fewer switches on. *)
+Lemma den_fewer_switches : forall sy1 sy2 pp inp,
+  vars sy2 = vars sy1 -> params sy2 = params sy1 ->
+  (forall k, existsb (Nat.eqb k) (switches sy2) = true -> existsb (Nat.eqb k) (switches sy1) = true) ->
+  forall fuel v p a, snd (den fuel sy1 pp inp tt v p) = Ok a -> snd (den fuel sy2 pp inp tt v p) = Ok a.
+Proof.
+  intros sy1 sy2 pp inp Hv Hp Hsw. induction fuel as [|f IH]; intros v p a H; cbn [den] in *; [discriminate|].
+  rewrite Hv. destruct (nth_error (vars sy1) v) as [x|]; [|discriminate].
+  destruct (check_consistency x p); [|discriminate].
+  destruct (v_neutral x); auto.
+  destruct (lookup _ inp); auto.
+  destruct (formula_at x p) as [[e|]|]; auto.
+  rewrite let_pair_snd in *.
+  destruct (snd (eval (den f sy1 pp inp) sy1 pp (v_ent x) tt p e)) as [b|] eqn:E1; [|discriminate].
+  rewrite (eval_ok sy1 sy2 pp (den f sy1 pp inp) (den f sy2 pp inp) Hv Hp Hsw IH e (v_ent x) p b E1).
+  exact H.
+Qed.
+
+Lemma switch_off_fewer sy k : forall j,
+  existsb (Nat.eqb j) (switches (set_switch sy k false)) = true -> existsb (Nat.eqb j) (switches sy) = true.
+Proof.
+  intros j H. cbn [set_switch switches] in H. apply existsb_exists in H as (i & Hi & Hji).
+  apply filter_In in Hi as [Hi _]. apply existsb_exists. eauto.
+Qed.
+
+(** Switching a raise off under a live cache is sound: every cached value was computed
+    without meeting a raise, so it is also the meaning in the system without the switch. *)
+Theorem Top_switch_off : forall sy pp inp k s, Top sy pp inp s -> Top (set_switch sy k false) pp inp s.
+Proof.
+  intros sy pp inp k s [(I1 & I2 & I3) Hs]. split; [|exact Hs]. repeat split; auto.
+  intros v x q a Ex Hn Hl p Hq Hc.
+  change (vars (set_switch sy k false)) with (vars sy) in Ex.
+  specialize (I1 v x q a Ex Hn Hl p Hq Hc). unfold D in *.
+  apply (den_fewer_switches sy (set_switch sy k false) pp inp eq_refl eq_refl (switch_off_fewer sy k)).
+  exact I1.
+Qed.
+
+Lemma run_app_calc : forall rs1 fuel sy pp s rest, forallb is_calc_request rs1 = true ->
+  run fuel sy pp s (rs1 ++ rest) =
+  (fst (run fuel sy pp (fst (run fuel sy pp s rs1)) rest),
+   snd (run fuel sy pp s rs1) ++ snd (run fuel sy pp (fst (run fuel sy pp s rs1)) rest)).
+Proof.
+  induction rs1 as [|r rs IH]; intros fuel sy pp s rest H; cbn [app run fst snd].
+  - now destruct (run fuel sy pp s rest).
+  - cbn [forallb] in H. apply andb_true_iff in H as [Hr Hrs].
+    assert (Hsys : sys_after sy r = sy) by (destruct r; try discriminate; reflexivity).
+    rewrite Hsys. destruct (step fuel sy pp s r) as [s1 a].
+    rewrite (IH fuel sy pp s1 rest Hrs).
+    destruct (run fuel sy pp s1 rs) as [s2 l]. cbn [fst snd].
+    destruct (run fuel sy pp s2 rest) as [s3 l']. reflexivity.
+Qed.
+
+(** Requests, some of which may fail because switch [k] is on; the switch is turned off;
+    the requests made afterwards (the failed ones again, for instance) return their
+    meaning in the rule system in which [k] is off. *)
+Theorem switch_off_then_meaning : forall sy pp inp, ranked sy = true -> 1 <= max_loops sy ->
+  forall k rs1 rs2 s,
+  forallb is_calc_request rs1 = true -> forallb is_calc_request rs2 = true -> Top sy pp inp s ->
+  snd (run (enough_fuel sy) sy pp s (rs1 ++ RSwitch k false :: rs2))
+    = map (sem_answer sy pp inp) rs1 ++ ANone :: map (sem_answer (set_switch sy k false) pp inp) rs2
+  /\ Top (set_switch sy k false) pp inp (fst (run (enough_fuel sy) sy pp s (rs1 ++ RSwitch k false :: rs2))).
+Proof.
+  intros sy pp inp Hr Hl k rs1 rs2 s H1 H2 HT.
+  rewrite (run_app_calc rs1 _ sy pp s _ H1). cbn [fst snd].
+  destruct (run_refines_meaning sy pp inp Hr Hl rs1 s H1 HT) as [A1 T1].
+  rewrite A1. cbn [run step sys_after].
+  set (s1 := fst (run (enough_fuel sy) sy pp s rs1)) in *.
+  set (sy' := set_switch sy k false).
+  assert (T1' : Top sy' pp inp s1) by now apply Top_switch_off.
+  assert (Hr' : ranked sy' = true) by exact Hr.
+  assert (Hl' : 1 <= max_loops sy') by exact Hl.
+  destruct (run_refines_meaning sy' pp inp Hr' Hl' rs2 s1 H2 T1') as [A2 T2].
+  change (enough_fuel sy) with (enough_fuel sy').
+  destruct (run (enough_fuel sy') sy' pp s1 rs2) as [s2 l2]. cbn [fst snd] in *.
+  split; [now rewrite A2|exact T2].
+Qed.
+
+(** * Removing the cause by giving the failing node as an input *)
+
+(** one unfolding of the meaning, relating two (fuel, system, inputs) triples *)
+Lemma den_step_ok : forall sy1 sy2 pp inp1 inp2 f1 f2,
+  vars sy2 = vars sy1 -> params sy2 = params sy1 ->
+  (forall k, existsb (Nat.eqb k) (switches sy2) = true -> existsb (Nat.eqb k) (switches sy1) = true) ->
+  (forall w q a, snd (den f1 sy1 pp inp1 tt w q) = Ok a -> snd (den f2 sy2 pp inp2 tt w q) = Ok a) ->
+  forall v p a,
+  (forall x, nth_error (vars sy1) v = Some x -> lookup (v, norm x p) inp2 = lookup (v, norm x p) inp1) ->
+  snd (den (S f1) sy1 pp inp1 tt v p) = Ok a -> snd (den (S f2) sy2 pp inp2 tt v p) = Ok a.
+Proof.
+  intros sy1 sy2 pp inp1 inp2 f1 f2 Hv Hp Hsw IH v p a Hin H. cbn [den] in *.
+  rewrite Hv. destruct (nth_error (vars sy1) v) as [x|]; [|discriminate].
+  destruct (check_consistency x p); [|discriminate].
+  destruct (v_neutral x); auto.
+  rewrite (Hin x eq_refl).
+  destruct (lookup _ inp1); auto.
+  destruct (formula_at x p) as [[e|]|]; auto.
+  rewrite let_pair_snd in *.
+  destruct (snd (eval (den f1 sy1 pp inp1) sy1 pp (v_ent x) tt p e)) as [b|] eqn:E1; [|discriminate].
+  rewrite (eval_ok sy1 sy2 pp (den f1 sy1 pp inp1) (den f2 sy2 pp inp2) Hv Hp Hsw IH e (v_ent x) p b E1).
+  exact H.
+Qed.
+
+(** a value obtained with some fuel is obtained with more fuel *)
+Lemma den_more_fuel : forall sy pp inp f v p a,
+  snd (den f sy pp inp tt v p) = Ok a -> forall n, snd (den (n + f) sy pp inp tt v p) = Ok a.
+Proof.
+  intros sy pp inp.
+  assert (Hone : forall f v p a, snd (den f sy pp inp tt v p) = Ok a -> snd (den (S f) sy pp inp tt v p) = Ok a).
+  { induction f as [|f IH]; intros v p a H; [discriminate|].
+    apply (den_step_ok sy sy pp inp inp f (S f) eq_refl eq_refl (fun k H => H) IH v p a); auto. }
+  intros f v p a H n. induction n as [|n IHn]; [exact H|]. cbn [Nat.add]. now apply Hone.
+Qed.
+
+Section GiveInput.
+  Variable sy : sys.
+  Variable pp : popu.
+  Variable inp : inputs.
+  Hypothesis Hranked : ranked sy = true.
+  Hypothesis Hloops : 1 <= max_loops sy.
+
+  Variable v : nat.
+  Variable x : var.
+  Variable p : period.
+  Variable a : val.
+  Hypothesis Ex : nth_error (vars sy) v = Some x.
+  Hypothesis Hn : v_neutral x = false.
+  Variable e : err.
+  Hypothesis Hfail : sem sy pp inp v p = Err e.      (* the failing node *)
+
+  Definition inp' : inputs := ((v, norm x p), a) :: inp.
+
+  Lemma failing_not_eternal : unit_eqb (v_unit x) Eternity = false.
+  Proof.
+    destruct (unit_eqb (v_unit x) Eternity) eqn:Eu; auto. exfalso.
+    rewrite (sem_D sy pp inp Hranked Hloops), (D_unfold sy pp inp v p x Ex) in Hfail.
+    unfold check_consistency in Hfail. rewrite Eu, Hn in Hfail.
+    rewrite (eternal_no_formula sy Hranked v x p Ex Eu) in Hfail.
+    destruct (lookup _ inp); discriminate.
+  Qed.
+
+  Lemma norm_id q : norm x q = q.
+  Proof. unfold norm. now rewrite failing_not_eternal. Qed.
+
+  (** the failing node has no value at any fuel *)
+  Lemma failing_never_ok : forall f b, snd (den f sy pp inp tt v p) <> Ok b.
+  Proof.
+    intros f b H.
+    assert (Hv : v < length (vars sy)) by (apply nth_error_Some; congruence).
+    pose proof (den_more_fuel sy pp inp f v p b H (S (length (vars sy)))) as H1.
+    rewrite (den_fuel sy pp inp Hranked Hloops v _ (S (length (vars sy))) p) in H1; [|lia|lia].
+    unfold sem, sem_rec in Hfail. congruence.
+  Qed.
+
+  Lemma lookup_inp'_other k : key_eqb k (v, norm x p) = false -> lookup k inp' = lookup k inp.
+  Proof. intro H. unfold inp', lookup. cbn [find fst]. now rewrite H. Qed.
+
+  Lemma lookup_inp'_same : lookup (v, norm x p) inp' = Some a.
+  Proof. unfold inp', lookup. cbn [find fst]. now rewrite key_eqb_refl. Qed.
+
+  (** whatever had a value without the input has the same value with it: nothing that
+      succeeded can have read the failing node *)
+  Lemma den_input_transfer : forall f w q b,
+    snd (den f sy pp inp tt w q) = Ok b -> snd (den f sy pp inp' tt w q) = Ok b.
+  Proof.
+    induction f as [|f IH]; intros w q b H; [discriminate|].
+    destruct (nth_error (vars sy) w) as [xw|] eqn:Ew.
+    2:{ cbn [den] in H. rewrite Ew in H. discriminate. }
+    destruct (key_eqb (w, norm xw q) (v, norm x p)) eqn:Ek.
+    - exfalso. apply key_eqb_iff in Ek. inversion Ek as [[E1 E2]]. subst w.
+      rewrite Ex in Ew. inversion Ew; subst xw. rewrite !norm_id in E2. subst q.
+      exact (failing_never_ok (S f) b H).
+    - apply (den_step_ok sy sy pp inp inp' f f eq_refl eq_refl (fun k H => H) IH w q b); auto.
+      intros x0 E0. rewrite Ew in E0. inversion E0; subst x0. now apply lookup_inp'_other.
+  Qed.
+
+  (** set_input on the failing node, from a state between two requests: the state is again
+      such a state, now for the inputs extended with the given array *)
+  Theorem Top_give_input : forall s, Top sy pp inp s -> Top sy pp inp' (put (v, norm x p) a s).
+  Proof.
+    intros s [(I1 & I2 & I3) Hs]. split; [|exact Hs]. repeat split; [| |exact I3].
+    - intros w xw q b Ew Hnw Hl p' Hq Hc. rewrite lookup_put in Hl.
+      destruct (key_eqb (w, q) (v, norm x p)) eqn:Ek.
+      + apply key_eqb_iff in Ek. inversion Ek as [[E1 E2]]. subst w.
+        rewrite Ex in Ew. inversion Ew; subst xw. inversion Hl; subst b.
+        rewrite (D_unfold sy pp inp' v p' x Ex), Hc, Hn, Hq, E2, lookup_inp'_same. reflexivity.
+      + specialize (I1 w xw q b Ew Hnw Hl p' Hq Hc). unfold D in *. now apply den_input_transfer.
+    - intros k b Hk. rewrite lookup_put.
+      destruct (key_eqb k (v, norm x p)) eqn:Ek.
+      + apply key_eqb_iff in Ek. subst k. rewrite lookup_inp'_same in Hk. exact Hk.
+      + rewrite (lookup_inp'_other k Ek) in Hk. now apply I2.
+  Qed.
+End GiveInput.
+
+(** A request fails at node (v, p); [set_input] gives that node a value and is accepted;
+    every later request returns its meaning on the inputs extended with that value. *)
+Theorem input_given_then_meaning : forall sy pp inp, ranked sy = true -> 1 <= max_loops sy ->
+  forall v x p a e s rs,
+  nth_error (vars sy) v = Some x -> v_neutral x = false ->
+  sem sy pp inp v p = Err e ->
+  Top sy pp inp s ->
+  set_input sy pp s v p a = (put (v, norm x p) (cast x a) s, ANone) ->
+  forallb is_calc_request rs = true ->
+  snd (run (enough_fuel sy) sy pp s (RSetInput v p a :: rs))
+    = ANone :: map (sem_answer sy pp (inp' inp v x p (cast x a))) rs
+  /\ Top sy pp (inp' inp v x p (cast x a)) (fst (run (enough_fuel sy) sy pp s (RSetInput v p a :: rs))).
+Proof.
+  intros sy pp inp Hr Hl v x p a e s rs Ex Hn Hfail HT Hset Hrs.
+  cbn [run step sys_after]. rewrite Hset.
+  pose proof (Top_give_input sy pp inp Hr Hl v x p (cast x a) Ex Hn e Hfail s HT) as HT'.
+  destruct (run_refines_meaning sy pp _ Hr Hl rs _ Hrs HT') as [A T].
+  destruct (run (enough_fuel sy) sy pp (put (v, norm x p) (cast x a) s) rs) as [s2 l]. cbn [fst snd] in *.
+  split; [now rewrite A|exact T].
+Qed.
